@@ -1,6 +1,7 @@
 package rules
 
 import (
+	"go/constant"
 	"fmt"
 	"go/token"
 	"go/types"
@@ -63,6 +64,9 @@ func c01(w *core.World, r *core.Report) {
 	r.Rule("R01.6", "database mapping is decided in selectDB only; SELECT is emitted on its changed edge with its result", 4)
 	ruleDbMapping(w, r)
 	ruleDbTracking(w, r)
+
+	r.Rule("R01.10", "a SELECT of the source always takes the database-decision branch: it reaches the generic forwarding only with a negative number", 1)
+	ruleSelectNeverForwardedRaw(w, r)
 
 	r.Rule("R01.8", "transaction brackets are classified by the command table in every state (see R09.3)", 6)
 	ruleTxnStateMachine(w, r)
@@ -1606,4 +1610,80 @@ func ruleTargetDbConfigured(w *core.World, r *core.Report) {
 		return
 	}
 	r.Check(bad == "" && n > 0 && nCfg > 0, "ReplayConfig.fix/target-db", pos, "%s (distinct outcomes=%d, with a configured database=%d)", bad, n, nCfg)
+}
+
+// ---------------------------------------------------------------- R01.10 a SELECT of the source is never forwarded as an ordinary command
+
+// ruleSelectNeverForwardedRaw: the parser turns a SELECT of the source into a
+// database decision (selectDB: mapping, de-duplication, the tracked database).
+// A SELECT that misses that branch is forwarded verbatim: the mapping is not
+// applied and the tracked database goes stale, so a later switch back is judged
+// redundant and writes land in the wrong database. On every path of one
+// iteration on which the command was recognised as a SELECT (its number went
+// through the database filter) and which reaches the generic forwarding, the
+// path's own tests must imply that the number is negative (the one case the
+// code lets fall through). `db > 0` instead of `db >= 0` leaves database 0
+// — the most common one — outside.
+func ruleSelectNeverForwardedRaw(w *core.World, r *core.Report) {
+	f := fn(w, r, "(*syncer.RedisOutput).parseAofCommand")
+	if f == nil {
+		return
+	}
+	var head *ssa.BasicBlock
+	for _, s := range core.SitesNamed(f, false, "pkg/redis/client.MustDecodeOpt") {
+		if s.Instr.Parent() == f {
+			head = core.LoopHeadOf(s.Instr.Block())
+		}
+	}
+	if head == nil {
+		r.Undecided("parseAofCommand/select-not-forwarded-raw", f.Pos(), "the decode loop was not found")
+		return
+	}
+	isGenericCmd := func(in ssa.Instruction) bool {
+		st, ok := in.(*ssa.Store)
+		if !ok {
+			return false
+		}
+		fa, ok := st.Addr.(*ssa.FieldAddr)
+		return ok && core.FieldName(fa) == "Cmd" && strings.HasSuffix(core.TypeName(fa.X.Type()), "syncer.cmdExecution")
+	}
+	bad := ""
+	var pos token.Pos = f.Pos()
+	n, selects := 0, 0
+	okEnum := core.EnumPathsN(head, 0, 400000, 1, func(p *core.Path) {
+		if bad != "" {
+			return
+		}
+		var db ssa.Value
+		for _, s := range pathSites(p) {
+			if strings.HasSuffix(s.Name, "RedisKeyFilter).FilterDb") {
+				if a := s.Args(); len(a) >= 1 {
+					db = p.Resolve(a[0])
+				}
+			}
+		}
+		if db == nil {
+			return
+		}
+		selects++
+		var fwd ssa.Instruction
+		for _, in := range p.Instrs {
+			if isGenericCmd(in) {
+				fwd = in
+			}
+		}
+		if fwd == nil {
+			return
+		}
+		n++
+		zero := ssa.Value(ssa.NewConst(constant.MakeInt64(0), db.Type()))
+		if !p.Entails(db, token.LSS, zero) {
+			bad, pos = "a SELECT of the source reaches the generic forwarding on a path whose tests do not imply a negative database number: it is sent verbatim, without the database mapping, and the tracked database is not updated (for instance database 0 under `db > 0`)", fwd.Pos()
+		}
+	})
+	if !okEnum {
+		r.Undecided("parseAofCommand/select-not-forwarded-raw", f.Pos(), "too many paths")
+		return
+	}
+	r.Check(bad == "" && selects > 0, "parseAofCommand/select-not-forwarded-raw", pos, "%s (select paths=%d, of them reaching the generic forwarding=%d)", bad, selects, n)
 }
